@@ -18,10 +18,10 @@
      two dot entries.  ! Volume-label entries (attr bit 8) are NOT skipped: the crate's lookup and
      open_file_in_dir ignore that bit, so a label entry can be opened, written and flushed like a
      file; it is therefore a (normally empty) file node, its cluster / size fields are checked.
-   - ! Long-name slots must be INERT (some byte among the first 11 is < 32): find_directory_entry
-     compares the first 11 bytes of EVERY non-end slot with the 8.3 name, whatever the attribute,
-     so a long-name slot whose 11 bytes look like an 8.3 name (possible with CJK long names) would
-     be found, opened as a file and its "cluster" freed by a delete.  See the report.
+   - Long-name slots (valid slots with attr land 15 = 15) are unconstrained: any UTF-16 contents
+     (CJK long names included).  find_directory_entry / delete_directory_entry skip them
+     (FsFat.matches asks negb is_lfn since the repair of the long-name lookup defect), so a long-name
+     slot whose first 11 bytes look like an 8.3 name is never found, opened or deleted.
    - The tree is a Fixpoint predicate on the tree T (nested lists), so it unfolds by computation.
    - The size of a file node must fit its chain for EVERY file node (open or not): while a file
      is open its chain only grows and the slot still holds the last flushed size.
@@ -200,9 +200,6 @@ Definition root_of (d : disk) (v : vol) : option (list N * list N) :=
   else Some (root16_blocks v, []).
 
 (* ================================================================== 2. soundness of one directory, of a node *)
-(* a long-name slot that the name comparison of the crate can never take for an 8.3 entry *)
-Definition lfn_inert (sl : list N) : Prop := exists k, (k < 11)%nat /\ nth k sl 0 < 32.
-
 (* the dot entry named nm with first cluster c (after decoding: 0 of a directory reads as CL_ROOT) *)
 Definition dot_entry (fat32 : bool) (t : tslot) (nm : list N) (c : N) : Prop :=
   short_slot t = true /\ t_name t = nm /\ is_directory (t_attr t) = true /\
@@ -220,8 +217,6 @@ Record dir_ok (d : disk) (v : vol) (own parent : N) (bl : list N) : Prop := mk_d
   do_tail : clean_tail (slots_of d bl);
   (* the 11-byte names of the live short entries (dot entries included) are pairwise distinct *)
   do_names : NoDup (map t_name (dir_shorts d bl));
-  do_lfn : forall t, In t (dir_live d bl) -> t_is_valid t = true -> is_lfn (t_attr t) = true ->
-           lfn_inert (snd t);
   do_dots : dots_ok (v_fat32 v) own parent (dir_live d bl)
 }.
 
@@ -529,7 +524,7 @@ Qed.
 
 Lemma dir_ok_geo d v w own parent bl : geo_eq v w -> dir_ok d v own parent bl -> dir_ok d w own parent bl.
 Proof.
-  intros G [A B C D]. constructor; try assumption.
+  intros G [A B D]. constructor; try assumption.
   replace (v_fat32 w) with (v_fat32 v) by (destruct G as (a & b & ->); reflexivity). exact D.
 Qed.
 
@@ -626,10 +621,9 @@ Qed.
 Lemma dir_ok_frame d d' v own parent bl : (forall j, In j bl -> disk_get d' j = disk_get d j) ->
   dir_ok d v own parent bl -> dir_ok d' v own parent bl.
 Proof.
-  intros H [A B C D]. constructor.
+  intros H [A B D]. constructor.
   - rewrite (slots_of_ext d d' bl H). exact A.
   - unfold dir_shorts. rewrite (dir_live_ext d d' bl H). exact B.
-  - rewrite (dir_live_ext d d' bl H). exact C.
   - rewrite (dir_live_ext d d' bl H). exact D.
 Qed.
 
@@ -1516,8 +1510,6 @@ Fixpoint nodup_lb (l : list (list N)) : bool :=
   | x :: r => negb (existsb (list_eqb x) r) && nodup_lb r
   end.
 
-Definition lfn_inert_b (sl : list N) : bool := existsb (fun k => nth k sl 0 <? 32) (seq 0 11).
-
 Definition no_dots_b (l : list tslot) : bool := forallb (fun t => negb (short_slot t) || negb (dot_slot t)) l.
 Definition dot_entry_b (fat32 : bool) (t : tslot) (nm : list N) (c : N) : bool :=
   short_slot t && list_eqb (t_name t) nm && is_directory (t_attr t) && (e_cluster (t_entry fat32 t) =? c).
@@ -1532,7 +1524,6 @@ Definition dots_ok_b (fat32 : bool) (own parent : N) (l : list tslot) : bool :=
 Definition dir_ok_b (d : disk) (v : vol) (own parent : N) (bl : list N) : bool :=
   clean_tail_b (slots_of d bl) &&
   nodup_lb (map t_name (dir_shorts d bl)) &&
-  forallb (fun t => negb (t_is_valid t && is_lfn (t_attr t)) || lfn_inert_b (snd t)) (dir_live d bl) &&
   dots_ok_b (v_fat32 v) own parent (dir_live d bl).
 
 Fixpoint node_ok_b (d : disk) (v : vol) (parent : N) (n : node) {struct n} : bool :=
@@ -1583,12 +1574,6 @@ Proof.
   congruence.
 Qed.
 
-Lemma lfn_inert_b_ok sl : lfn_inert_b sl = true -> lfn_inert sl.
-Proof.
-  unfold lfn_inert_b, lfn_inert. intros H. apply existsb_exists in H. destruct H as (k & Hk & H).
-  apply in_seq in Hk. apply N.ltb_lt in H. exists k. split; [lia|exact H].
-Qed.
-
 Lemma no_dots_b_ok l : no_dots_b l = true -> no_dots l.
 Proof.
   unfold no_dots_b, no_dots. rewrite forallb_forall, Forall_forall. intros H t Ht Hs.
@@ -1611,11 +1596,9 @@ Qed.
 
 Lemma dir_ok_b_ok d v own parent bl : dir_ok_b d v own parent bl = true -> dir_ok d v own parent bl.
 Proof.
-  unfold dir_ok_b. rewrite !andb_true_iff. intros (((A & B) & C) & D). constructor.
+  unfold dir_ok_b. rewrite !andb_true_iff. intros ((A & B) & D). constructor.
   - exact (clean_tail_b_ok _ A).
   - exact (nodup_lb_ok _ B).
-  - intros t Ht Hv Hl. rewrite forallb_forall in C. specialize (C t Ht). rewrite Hv, Hl in C.
-    cbn [andb negb orb] in C. exact (lfn_inert_b_ok _ C).
   - exact (dots_ok_b_ok _ _ _ _ D).
 Qed.
 
@@ -1795,17 +1778,12 @@ Section SlotWrite.
     Theorem dir_ok_replace v own parent bl : t_name (blk, i * 32, new) = t_name (blk, i * 32, old) ->
       dir_ok d v own parent bl -> dir_ok d' v own parent bl.
     Proof.
-      intros Hname [A B C D]. constructor.
+      intros Hname [A B D]. constructor.
       - exact (clean_tail_upd bl A).
       - rewrite dir_shorts_upd, map_map.
         replace (map (fun x => t_name (U x)) (dir_shorts d bl)) with (map t_name (dir_shorts d bl)); [exact B|].
         apply map_ext_in. intros t Ht. unfold dir_shorts in Ht. apply filter_In in Ht.
         destruct (U_cases bl t (live_in_slots bl t (proj1 Ht))) as [->|(-> & ->)]; [reflexivity|symmetry; exact Hname].
-      - intros t Ht Hv Hl. rewrite dir_live_upd in Ht. apply in_map_iff in Ht. destruct Ht as (t0 & <- & Ht0).
-        destruct (U_cases bl t0 (live_in_slots bl t0 Ht0)) as [E|(_ & E)]; rewrite E in *.
-        + exact (C t0 Ht0 Hv Hl).
-        + exfalso. destruct (short_of_node _ Hnew) as [Hs _]. unfold short_slot in Hs.
-          apply andb_true_iff in Hs. destruct Hs as [_ Hs]. rewrite Hl in Hs. discriminate Hs.
       - rewrite dir_live_upd. unfold dots_ok in *. destruct (own =? CL_ROOT).
         + exact (no_dots_upd bl _ (live_in_slots bl) D).
         + destruct D as (t0 & t1 & rest & El & D0 & D1 & Dr).
@@ -2516,10 +2494,9 @@ Theorem dir_ok_subst d d' v own parent bl a x y b :
   (short_slot x = true -> dot_slot x = false) ->
   (short_slot y = true -> dot_slot y = false /\
                           ~ In (t_name y) (map t_name (filter short_slot (a ++ b)))) ->
-  (t_is_valid y = true -> is_lfn (t_attr y) = true -> lfn_inert (snd y)) ->
   dir_ok d' v own parent bl.
 Proof.
-  intros [A B C D] Hct El El' Hx Hy Hlfn. constructor.
+  intros [A B D] Hct El El' Hx Hy. constructor.
   - exact Hct.
   - unfold dir_shorts in *. rewrite El in B. rewrite El'. rewrite filter_app in *. cbn [filter] in *.
     assert (B0 : NoDup (map t_name (filter short_slot a ++ filter short_slot b))).
@@ -2530,10 +2507,6 @@ Proof.
     rewrite map_app. cbn [map]. apply NoDup_Add with (a := t_name y) (l := map t_name (filter short_slot a ++ filter short_slot b)).
     + rewrite map_app. apply Add_app.
     + split; [exact B0|exact Hni].
-  - intros t Ht Hv Hl. rewrite El' in Ht. apply in_app_or in Ht. destruct Ht as [Ht|[<-|Ht]].
-    + apply (C t); [rewrite El; apply in_or_app; left; exact Ht|exact Hv|exact Hl].
-    + exact (Hlfn Hv Hl).
-    + apply (C t); [rewrite El; apply in_or_app; right; right; exact Ht|exact Hv|exact Hl].
   - rewrite El'. rewrite El in D. apply (dots_ok_subst _ _ _ a x y b D Hx). intros Hs. exact (proj1 (Hy Hs)).
 Qed.
 
@@ -2542,10 +2515,9 @@ Theorem dir_ok_snoc d d' v own parent bl y :
   dir_ok d v own parent bl -> clean_tail (slots_of d' bl) ->
   dir_live d' bl = dir_live d bl ++ [y] ->
   (short_slot y = true -> dot_slot y = false /\ ~ In (t_name y) (map t_name (dir_shorts d bl))) ->
-  (t_is_valid y = true -> is_lfn (t_attr y) = true -> lfn_inert (snd y)) ->
   dir_ok d' v own parent bl.
 Proof.
-  intros [A B C D] Hct El' Hy Hlfn. constructor.
+  intros [A B D] Hct El' Hy. constructor.
   - exact Hct.
   - unfold dir_shorts in *. rewrite El', filter_app. cbn [filter].
     destruct (short_slot y) eqn:Ey; [|rewrite app_nil_r; exact B].
@@ -2553,9 +2525,6 @@ Proof.
     apply NoDup_Add with (a := t_name y) (l := map t_name (filter short_slot (dir_live d bl))).
     + rewrite <- (app_nil_r (map t_name (filter short_slot (dir_live d bl)))) at 1. apply Add_app.
     + split; [exact B|exact Hni].
-  - intros t Ht Hv Hl. rewrite El' in Ht. apply in_app_or in Ht. destruct Ht as [Ht|[<-|[]]].
-    + exact (C t Ht Hv Hl).
-    + exact (Hlfn Hv Hl).
   - rewrite El'. apply (dots_ok_snoc _ _ _ _ y D). intros Hs. exact (proj1 (Hy Hs)).
 Qed.
 
@@ -2906,7 +2875,6 @@ Proof.
       * rewrite app_nil_r. intros x Hx. apply Hn. unfold dir_nodes in Hx. apply filter_In in Hx. exact (proj1 Hx).
     + apply (dir_ok_snoc d d' v own par bld _ Hok Hct' El').
       * intros _. split; [exact Hd|exact Hfresh].
-      * intros _ Hl'. rewrite Hl in Hl'. discriminate Hl'.
   - assert (Hae : existsb t_is_end a = false).
     { clear - Ha. induction Ha as [|x a Hx _ IH]; [reflexivity|]. cbn [existsb]. rewrite (valid_not_end x Hx), IH. reflexivity. }
     assert (Hin : In (blk, i * 32, slot (disk_get d blk) i) (dir_live d bld)).
@@ -2924,7 +2892,6 @@ Proof.
       * intros Hs'. rewrite Hos in Hs'. discriminate Hs'.
       * intros _. split; [exact Hd|]. unfold dir_shorts in Hfresh. rewrite El, !filter_app in Hfresh. cbn [filter] in Hfresh.
         rewrite Hos in Hfresh. rewrite filter_app. exact Hfresh.
-      * intros _ Hl'. rewrite Hl in Hl'. discriminate Hl'.
 Qed.
 
 (* the directory from which a node slot is removed *)
@@ -2948,7 +2915,6 @@ Proof.
     + apply (clean_tail_upd d d' blk i new Hsw); [rewrite Hne, Hold; reflexivity|exact (do_tail _ _ _ _ _ Hok)].
     + intros _. exact (proj2 (node_short _ Hnode)).
     + intros Hs'. rewrite Hns in Hs'. discriminate Hs'.
-    + intros Hv'. rewrite Hinv in Hv'. discriminate Hv'.
 Qed.
 
 Lemma Forall2_len {A B} (R : A -> B -> Prop) l1 l2 : Forall2 R l1 l2 -> length l1 = length l2.
@@ -3233,14 +3199,7 @@ Proof.
   split; [|split; [exact Hin|exact En]].
   unfold dir_nodes. apply filter_In. split; [exact Hin|].
   unfold node_slot, short_slot. rewrite Hv. cbn [andb].
-  assert (Hnl : is_lfn (t_attr t) = false).
-  { destruct (is_lfn (t_attr t)) eqn:El; [|reflexivity]. exfalso.
-    destruct (do_lfn _ _ _ _ _ Hok t Hin Hv El) as (k & Hk & Hlt).
-    assert (E : nth k (snd t) 0 = nth k sfn 0).
-    { rewrite <- En. unfold t_name. symmetry. apply nth_firstn_lt. exact Hk. }
-    rewrite E in Hlt. rewrite Forall_forall in Hall.
-    assert (Hk' : (k < length sfn)%nat) by lia.
-    specialize (Hall (nth k sfn 0) (nth_In sfn 0 Hk')). lia. }
+  assert (Hnl : is_lfn (t_attr t) = false) by exact (proj1 (matches_parts _ _ Hm)).
   rewrite Hnl. cbn [negb andb]. unfold dot_slot. rewrite En. unfold PrModes.dot_name in Hdot. rewrite Hdot. reflexivity.
 Qed.
 
@@ -3250,7 +3209,8 @@ Proof.
   intros Hok Hfind Hin. rewrite (live_clean d bld (do_tail _ _ _ _ _ Hok)) in Hfind. fold (dir_live d bld) in Hfind.
   apply in_map_iff in Hin. destruct Hin as (t & En & Ht). unfold dir_shorts in Ht. apply filter_In in Ht.
   pose proof (find_none_all _ _ Hfind t (proj1 Ht)) as Hm. unfold t_matches, matches in Hm.
-  unfold t_name in En. rewrite En, list_eqb_refl in Hm. discriminate Hm.
+  destruct (short_valid t (proj2 Ht)) as [_ Hnl]. unfold t_attr in Hnl.
+  unfold t_name in En. rewrite En, list_eqb_refl, Hnl in Hm. discriminate Hm.
 Qed.
 
 Section OpenHyps.
@@ -3531,7 +3491,27 @@ Fixpoint gx_check (ops : list op) (s : st) : list (bool * bool) :=
 Example fs_inv_run_example : Forall (fun p => p = (true, true)) (gx_check gx_ops gx_state).
 Proof. vm_compute. repeat constructor. Qed.
 
+(* long names with arbitrary UTF-16: PrDir's witness fragment (sequence byte 0x41, five units
+   U+4242, attribute 0x0F - its first 11 bytes spell the 8.3 name "ABBBBBBB.BBB", none of them is
+   below 0x20) in front of the entry of C in the directory D.  The decider accepts the image, an
+   open / delete of that 8.3 name in D says NotFound, and the run of gx_ops (which deletes C behind
+   the fragment) keeps the decider true after every call. *)
+Definition gx_dir_cjk : block :=
+  set_bytes zero_block 0 (gx_ent THIS_DIR_NAME 16 4 0 ++ gx_ent PARENT_DIR_NAME 16 0 0 ++ lfn_slot_cjk ++
+                          gx_ent (gx_name 67) 32 5 10).
+Definition gx_state_cjk : st :=
+  mk_st (gx_disk_of gx_fat gx_root_blk gx_dir_cjk) zero_block None [exd_vol]
+        [mk_dirinfo 5 0 CL_ROOT; mk_dirinfo 9 0 4] [gx_fileB] 10 0 0 [] [] false 1 4 4.
+Example fs_inv_cjk_lfn_example :
+  forallb (fun x => 32 <=? x) (firstn 11 lfn_slot_cjk) = true /\
+  fs_inv_b 5 1 (s_disk gx_state_cjk) exd_vol [6] = true /\
+  fst (step (OpenFile 9 [65; 66; 66; 66; 66; 66; 66; 66; 46; 66; 66; 66] ReadOnly) gx_state_cjk) = Err NotFound /\
+  fst (step (Delete 9 [65; 66; 66; 66; 66; 66; 66; 66; 46; 66; 66; 66]) gx_state_cjk) = Err NotFound /\
+  Forall (fun p => p = (true, true)) (gx_check gx_ops gx_state_cjk).
+Proof. vm_compute. repeat split; try reflexivity. repeat constructor. Qed.
+
 Print Assumptions fs_inv_example.
+Print Assumptions fs_inv_cjk_lfn_example.
 
 (* ================================================================== 5d. FRAME: a directory grows by one zeroed cluster *)
 Lemma nth_repeat0 k : forall n, nth n (repeat 0 k) 0 = 0.
@@ -3575,10 +3555,9 @@ Lemma grow_dir_ok d d' v own par bld zb : (forall j, In j bld -> disk_get d' j =
   (forall j, In j zb -> disk_get d' j = zero_block) ->
   dir_ok d v own par bld -> dir_ok d' v own par (bld ++ zb).
 Proof.
-  intros Hb Hz [A B C D]. destruct (grow_live d d' bld zb Hb Hz) as [El Hct]. constructor.
+  intros Hb Hz [A B D]. destruct (grow_live d d' bld zb Hb Hz) as [El Hct]. constructor.
   - exact (Hct A).
   - unfold dir_shorts. rewrite El. exact B.
-  - rewrite El. exact C.
   - rewrite El. exact D.
 Qed.
 
